@@ -16,6 +16,7 @@ import (
 	ugotime "github.com/ozanh/ugo/stdlib/time"
 
 	"verifharness/codec"
+	"verifharness/conc"
 	"verifharness/gen"
 )
 
@@ -70,6 +71,7 @@ x := 1 / (cnt.get() - 7)
 return {ok: cnt.get(), x: x}`))
 	mm.AddBuiltinModule("strings", ugostrings.Module)
 	mm.AddBuiltinModule("time", ugotime.Module)
+	mm.AddBuiltinModule("vmod", conc.VMod())
 	return mm
 }
 
@@ -110,7 +112,7 @@ func histHostGlobals(vm *ugo.VM) ugo.Map {
 			var a []ugo.Object
 			return a[len(args)+3], nil
 		}},
-		"abort":  &ugo.Function{Name: "abort", Value: func(args ...ugo.Object) (ugo.Object, error) { vm.Abort(); return ugo.Undefined, nil }},
+		"abort": &ugo.Function{Name: "abort", Value: func(args ...ugo.Object) (ugo.Object, error) { vm.Abort(); return ugo.Undefined, nil }},
 		"hosterr": &ugo.Function{Name: "hosterr", Value: func(args ...ugo.Object) (ugo.Object, error) {
 			return nil, ugo.ErrType.NewError("from host")
 		}},
@@ -315,7 +317,7 @@ func priorRun(r *gen.Rand, model bool) *hRun {
 	kinds := []string{"gen", "gen", "error-deep", "frame-overflow", "slot-overflow", "abort", "stack-junk", "caught-overflow"}
 	if !model {
 		kinds = append(kinds, "host-panic", "host-panic", "host-index-panic", "host-abort", "host-abort", "import-mutate", "import-mutate",
-			"half-import", "callback-throw", "host-error")
+			"half-import", "callback-throw", "host-error", "container-mutate", "container-mutate")
 	}
 	h.Kind = kinds[r.Intn(len(kinds))]
 	d := 1 + r.Intn(30)
@@ -411,6 +413,22 @@ for i := 0; i < %d; i++ { cnt.inc(i) }
 cnt.state.extra = [a1]
 %s
 `, 1+r.Intn(5), []string{"return cnt.state", "throw error(\"after import\")", "return mid.bump(3) / (a0 - a0)"}[r.Intn(3)])
+	case "container-mutate":
+		// in-place updates of the container attributes of a builtin module: they must stay in this VM's
+		// copy and never reach the module constant of the Bytecode
+		h.Host = true
+		h.Src = hhdr + `v := import("vmod")
+v.arr[0] += 5
+v.arr[2] = a0
+v.m.k += 3
+v.m.added = a1
+v.by[0] = 9
+v.deep.a[0].x = 4
+v.deep.a[1][0] = 8
+v.sm.k = 2
+v.n += 1
+return [v.n, v.arr, v.m.k, v.by, v.deep.a[0].x, v.deep.a[1], v.sm.k]
+`
 	case "half-import":
 		h.Host = true
 		h.Src = hhdr + "x := import(\"half\")\nreturn x\n"
@@ -429,7 +447,7 @@ func observedRun(r *gen.Rand, model bool) *hRun {
 	h := &hRun{Args: histArgs(r), Rec: r.Bool()}
 	kinds := []string{"gen", "gen", "gen", "locals", "recurse", "closures", "try"}
 	if !model {
-		kinds = []string{"gen", "locals", "mod-state", "mod-state", "builtin-mod", "builtin-mod", "callbacks", "half-import", "recurse"}
+		kinds = []string{"gen", "locals", "mod-state", "mod-state", "builtin-mod", "builtin-mod", "container-mod", "container-mod", "callbacks", "half-import", "recurse"}
 	}
 	h.Kind = kinds[r.Intn(len(kinds))]
 	switch h.Kind {
@@ -489,6 +507,15 @@ t := import("time")
 old := s.mark
 s.mark = "observed"
 return [old, typeName(s.ToUpper), s.Repeat("ab", 2), t.Second, s.__module_name__]
+`
+	case "container-mod":
+		h.Host = true
+		h.Src = hhdr + `v := import("vmod")
+before := [v.n, v.arr[0], v.arr[2], v.m.k, v.m.added, v.by[0], v.deep.a[0].x, v.deep.a[1][0], v.sm.k]
+v.arr[1] += 1
+v.by[1] = 3
+v.m.k += 1
+return [before, v.arr, v.by, v.m.k]
 `
 	case "callbacks":
 		h.Host = true
